@@ -44,9 +44,10 @@ func TestMain(m *testing.M) {
 
 // identifiers of the findings this check knows how to exclude (see NOTES.md; none is listed when the proposed fixes are applied)
 const (
-	knownWriterAt = "C03-writeto-writerat-unverified" // leaf damage x {WriteTo(io.WriterAt), download}
-	knownPutErr   = "C03-localfs-put-drops-error"     // leaf damage x download: error of the copy is dropped
-	knownRootSwap = "C03-root-blob-swap-accepted"     // root blob replaced by another object's valid root blob x every style
+	knownWriterAt = "C03-writeto-writerat-unverified"   // leaf damage x {WriteTo(io.WriterAt), download}
+	knownPutErr   = "C03-localfs-put-drops-error"       // leaf damage x download: error of the copy is dropped
+	knownRootSwap = "C03-root-blob-swap-accepted"       // root blob replaced by another object's valid root blob x every style
+	knownStream   = "C03-read-streams-unverified-bytes" // leaf damage x {Read, ReadAll, WriteTo(io.Writer)}: altered bytes handed out before the terminal error
 )
 
 // ---------------------------------------------------------------------------------------------
@@ -443,10 +444,8 @@ func firstDiff(a, b []byte) int {
 //   - effective damage and the observation covers the damaged range: the read must FAIL (opening the object
 //     or the read itself returns an error other than io.EOF). A clean completion is a violation, whatever
 //     bytes came back;
-//   - in every case, bytes handed out together with a nil/EOF status by a SINGLE-SHOT style (ReadAt) must equal
-//     the stored bytes at those offsets; for the streaming styles the bytes delivered before the damaged leaf
-//     must equal the stored prefix (bytes of the damaged leaf itself may have been streamed before the
-//     terminal error: counted, not flagged - see NOTES.md).
+//   - in every case, bytes handed out (returned by Read/ReadAt with a nil/EOF status, or written to the
+//     destination of WriteTo) must equal the stored bytes at those offsets, also when the read fails later.
 func judge(st *stored, d damageT, o obsT, r resT) error {
 	orig := st.orig
 	size := len(orig)
@@ -496,17 +495,18 @@ func judge(st *stored, d damageT, o obsT, r resT) error {
 			}
 			return nil
 		}
-		// bytes delivered before the damaged range must be the stored prefix
-		healthy := min(len(r.data), d.Lo)
-		if !bytes.Equal(r.data[:healthy], orig[:healthy]) {
-			return fmt.Errorf("%s failed (%s) but had already delivered altered bytes of an undamaged leaf at offset %d", o.Style, what(), firstDiff(r.data[:healthy], orig[:healthy]))
-		}
-		if len(r.data) > d.Lo {
-			tail := r.data[d.Lo:]
-			ref := orig[d.Lo:]
-			if len(tail) > len(ref) || !bytes.Equal(tail, ref[:len(tail)]) {
-				stats.Count("stream_altered_bytes_before_error", 1)
+		// the read failed: whatever it delivered before failing must be stored bytes, too ("fail with an error
+		// RATHER THAN return bytes that differ"; "must not write altered bytes into the destination")
+		if len(r.data) > size || !bytes.Equal(r.data, orig[:len(r.data)]) {
+			at := firstDiff(r.data, orig)
+			if at >= d.Lo && hx.Known(knownStream) {
+				stats.Count("excluded_"+knownStream, 1)
+				return nil
 			}
+			return fmt.Errorf("%s failed (%s) but had already delivered %d bytes, altered from offset %d on (damaged range [%d,%d))", o.Style, what(), len(r.data), at, d.Lo, d.Hi)
+		}
+		if len(r.data) > 0 {
+			stats.Count("stream_healthy_prefix_before_error", 1)
 		}
 	case "writetoat":
 		if !failed {
@@ -520,11 +520,10 @@ func judge(st *stored, d damageT, o obsT, r resT) error {
 			}
 			return nil
 		}
-		// failed: count whether altered bytes reached the destination inside the damaged range
-		for i := d.Lo; i < len(r.data) && i < d.Hi; i++ {
-			if r.mask[i] && r.data[i] != orig[i] {
-				stats.Count("writerat_altered_bytes_before_error", 1)
-				break
+		// failed: no altered byte may have reached the destination
+		for i := range r.data {
+			if r.mask[i] && (i >= size || r.data[i] != orig[i]) {
+				return fmt.Errorf("WriteTo(WriterAt) failed (%s) but had already written altered bytes at offset %d (damaged range [%d,%d))", what(), i, d.Lo, d.Hi)
 			}
 		}
 	}
